@@ -490,7 +490,13 @@ impl<'a, 'tcx> Lower<'a, 'tcx> {
                 let a: Vec<J> = args.iter().map(|x| self.expr(x)).collect();
                 match callee {
                     Some((k, p)) => {
-                        J::O(vec![("k", s("call")), ("res", s(k)), ("fn", s(p)), ("args", J::A(a)), ("ty", ty), ("sp", sp)])
+                        // a call of a local (a closure bound by `let`): keep the callee expression
+                        let fe = if k == "local" { Some(self.expr(f)) } else { None };
+                        let mut o = vec![("k", s("call")), ("res", s(k)), ("fn", s(p)), ("args", J::A(a)), ("ty", ty), ("sp", sp)];
+                        if let Some(fe) = fe {
+                            o.push(("f", fe));
+                        }
+                        J::O(o)
                     }
                     None => {
                         let fe = self.expr(f);
